@@ -7,10 +7,21 @@ from ..evidence import seed
 from . import appcommon
 
 
+# documents whose only peculiarity is their line endings / final newline: nothing fixable => fix must leave them byte-identical
+LINE_END_DOCS = {
+    "crlf-clean.md": b"# Title\r\n\r\nSome text here.\r\n",
+    "cr-clean.md": b"# Title\r\rSome text here.\r",
+    "mixed-clean.md": b"# Title\r\n\nSome text here.\n",
+    "crlf-fixable.md": b"# Title\r\n\r\nSome text here.   \r\n",
+    "lf-clean.md": b"# Title\n\nSome text here.\n",
+    "nbsp-clean.md": "# Title\n\nSome\u00a0text \u2028 here.\n".encode("utf-8"),
+}
+
+
 def _corpus_case(case):
     """case: (mode, [paths], scheme). Run the real command on copies of corpus documents."""
     mode, paths, scheme = case
-    files = [("d%02d_%s" % (i, os.path.basename(p)), corpus.read(p)) for i, p in enumerate(paths)]
+    files = [("d%02d_%s" % (i, os.path.basename(p)), LINE_END_DOCS[p[len("lineend:"):]] if p.startswith("lineend:") else corpus.read(p)) for i, p in enumerate(paths)]
     names = [n for n, _ in files]
     argv = (["--return-code-scheme", "minimal"] if scheme == "minimal" else [])
     stdin = None
@@ -98,6 +109,9 @@ def run(pid, tier):
             cases.append(("stdin", paths[:1], scheme))
         if i % 9 == 2:
             cases.append(("list", paths, scheme))
+    for k, nm in enumerate(sorted(LINE_END_DOCS)):
+        cases.append(("fix", ["lineend:" + nm], "minimal" if k % 2 else "default"))
+        cases.append(("fix", ["lineend:lf-clean.md", "lineend:" + nm], "default"))
     res = impl.pmap(_corpus_case, cases, procs=16)
     fixcap = corpus.fix_capable_rules()
     ctraces = []
@@ -116,11 +130,12 @@ def run(pid, tier):
         for n, rl in (o.get("rules") or {}).items():
             if rl is not None and not (set(rl) & fixcap) and n in o["changed"]:
                 src = paths[names.index(n)]
-                shape = "empty-file" if not corpus.read(src) else os.path.basename(src)
+                shape = os.path.basename(src) if src.startswith("lineend:") else ("empty-file" if not corpus.read(src) else os.path.basename(src))
                 ctx.violation("corpus:changed-without-fixable-failure:%s:%s" % (shape, "+".join(rl or ["none"])),
                               {"file": src, "rules_reported_by_scan": rl, "argv": o["argv"]})
     # ---- the API's fix results for the same sets (every third set, alternating schemes)
-    acases = [("api", paths, "minimal" if k % 2 else "default") for k, (mode, paths, _s) in enumerate(c for c in cases if c[0] == "fix") if k % 3 != 2]
+    acases = [("api", paths, "minimal" if k % 2 else "default") for k, (mode, paths, _s) in enumerate(c for c in cases if c[0] == "fix")
+              if k % 3 != 2 and not any(p_.startswith("lineend:") for p_ in paths)]
     ares = impl.pmap(_api_case, acases, procs=16)
     for (_m, paths, scheme), o in zip(acases, ares):
         pth, st = o.get("path") or {}, o.get("string") or {}
